@@ -5,6 +5,15 @@ HERE = os.path.dirname(os.path.dirname(os.path.abspath(__file__)))
 GO = "PATH=/opt/veriftools/go1.26.8/bin:$PATH GOFLAGS=-mod=mod GOPROXY=off GOSUMDB=off GOTOOLCHAIN=local"
 TECH = "contract-based deductive verification: WP/symbolic execution of the real Go AST against //@ contracts, obligations discharged by z3 4.8/5.1 and cvc5"
 exec(open(os.path.join(HERE, "tools", "claims.py")).read())
+import subprocess
+try:
+    # every guarded (comment-only contract file) commit in /repo carries the subject prefix "verif:"
+    out = subprocess.run(["git", "-C", "/repo", "log", "--format=%H %s"], capture_output=True, text=True).stdout
+    auto = [l.split()[0] for l in out.splitlines() if l.split(" ", 1)[1].startswith("verif:")]
+    if auto:
+        HOOK_COMMITS = list(reversed(auto))
+except Exception:
+    pass
 checks = []
 for pid, c in sorted(CLAIMS.items()):
     checks.append({
